@@ -269,6 +269,26 @@ func genC10(c *Ctx, r *rng.R, i int) {
 	var err error
 	p, pmsg := recovered(func() { ret, err = f.Call(args) })
 
+	// function.Unpredictable(f) behaves as f with an implementation that answers "unknown of the checked type":
+	// same contract checks, same type callback, same declared refinements
+	{
+		saved := append([]ev(nil), trace...)
+		spec2 := *spec
+		spec2.Impl = func(as []cty.Value, rt cty.Type) (cty.Value, error) { return cty.UnknownVal(rt), nil }
+		ref := function.New(&spec2)
+		wrapped := function.Unpredictable(f)
+		var r1, r2 cty.Value
+		var e1, e2 error
+		p1, _ := recovered(func() { r1, e1 = wrapped.Call(args) })
+		p2, _ := recovered(func() { r2, e2 = ref.Call(args) })
+		c.Count("oracle_evals")
+		if p1 != p2 || (e1 == nil) != (e2 == nil) || (!p1 && e1 == nil && !sameValue(r1, r2)) {
+			c.Fail("C10/unpredictable-differs", fmt.Sprintf("Unpredictable(f): %s; f with an implementation answering unknown: %s", outcomeStr(r1, e1, p1), outcomeStr(r2, e2, p2)),
+				map[string]interface{}{"args": showAll(args), "type_cb": tcbKind, "refine": hasRefine})
+		}
+		trace = saved
+	}
+
 	// Coq terms
 	psC := make([]string, np)
 	psS := make([]string, np)
